@@ -92,11 +92,27 @@ def shared_tests(body, O, shared):
     for bb, t in body.switches():
         ex = O.switch_cond(bb)
         ex = F.strip_casts(ex)
+        while ex[0] == "un" and ex[1] == "Not":
+            ex = F.strip_casts(ex[2])
         if ex[0] == "phi":
             continue
         if ex[0] == "bin":
             continue
         if ex[0] == "call":
+            # `x.is_some()` / `x.is_none()` on a shared parameter is the discriminant test of x
+            if X.last_seg(ex[1] or "") in ("is_some", "is_none", "is_ok", "is_err") and len(ex[3]) == 1:
+                a = ex[3][0]
+                while a[0] in ("ref", "deref", "mut"):
+                    a = a[1]
+                ex = ("discr", a)
+            else:
+                continue
+        # only tests of the shared values themselves: a test of a value *built* from them (`let r = match (lo, hi) {..}; if let
+        # Some(..) = r`) repeats decisions that were already taken
+        base = ex
+        while base[0] in ("discr", "field", "downcast", "ref", "deref", "mut"):
+            base = base[1]
+        if base[0] in ("phi", "agg", "call", "bin", "un", "unwrap_or"):
             continue
         if only_shared(ex, shared) and atoms(ex):
             out.setdefault(F.rd(ex), []).append(span_loc(t["sp"]))
@@ -272,6 +288,15 @@ def closure_bindings(P, closure, depth=0):
     created it: ({capture index: expr}, {parameter local: expr}).  `opt.map(|x| ..)` binds x to the payload of `opt`."""
     if "::{closure#" not in closure.path or depth > 4:
         return {}, {}
+    cache = P.__dict__.setdefault("_closure_bindings", {})
+    if closure.key in cache:
+        return cache[closure.key]
+    res = _closure_bindings(P, closure, depth)
+    cache[closure.key] = res
+    return res
+
+
+def _closure_bindings(P, closure, depth):
     ppath = closure.parent or closure.path.rsplit("::{closure#", 1)[0]
     parent = P.bodies.get("%s::%s" % (closure.crate, ppath))
     if parent is None:
@@ -330,6 +355,10 @@ def in_root_terms(P, closure, ex):
             return e[1]
         return tuple(unmark(x) if isinstance(x, tuple) else x for x in e)
     return unmark(out)
+
+
+def has_upvar(ex):
+    return any(e[0] == "upvar" for e in X.walk(ex))
 
 
 def resolve_upvars(ex, caps):
@@ -402,16 +431,26 @@ class FnFacts:
                 k = cmp_key_positional(c)
                 self.cmps.setdefault(k, []).append(c)
             for cs in b.calls():
-                args = O.call_args(cs)
-                pargs = [positional(a) for a in args]
-                d = codec_call_desc(program, cs, pargs, ALL)
-                if d is not None:
-                    self.calls.setdefault("%s(%s)" % (d[0], ", ".join("%s=%s" % kv for kv in d[1])), []).append(cs)
-                if cs.fn is not None:
-                    nm = X.short(cs.callee)
-                    if nm in ("cmp::min", "cmp::max"):
-                        nm = "Ord::" + nm[5:]        # the free functions are Ord::min / Ord::max
-                    self.allcalls.setdefault("%s(%s)" % (nm, ", ".join(F.rd(a) for a in pargs)), []).append(cs)
+                args0 = O.call_args(cs)
+                variants = [args0]
+                if b is not body and any(has_upvar(a) for a in args0):
+                    # what a closure captured is a value of the creating function: the call is recorded in the closure's
+                    # terms (`^name`) and in the creator's
+                    variants.append([in_root_terms(program, b, a) if has_upvar(a) else a for a in args0])
+                for args in variants:
+                    pargs = [positional(a) for a in args]
+                    d = codec_call_desc(program, cs, pargs, ALL)
+                    if d is not None:
+                        k = "%s(%s)" % (d[0], ", ".join("%s=%s" % kv for kv in d[1]))
+                        if cs not in self.calls.get(k, ()):
+                            self.calls.setdefault(k, []).append(cs)
+                    if cs.fn is not None:
+                        nm = X.short(cs.callee)
+                        if nm in ("cmp::min", "cmp::max"):
+                            nm = "Ord::" + nm[5:]        # the free functions are Ord::min / Ord::max
+                        k = "%s(%s)" % (nm, ", ".join(F.rd(a) for a in pargs))
+                        if cs not in self.allcalls.get(k, ()):
+                            self.allcalls.setdefault(k, []).append(cs)
             for (op, c, pos), locs in F.const_ops(b, O).items():
                 self.constops.setdefault("%s %d" % (op, c), []).extend(locs)
             for bb, j, st in b.all_statements():
@@ -923,18 +962,19 @@ def path_values(body, O, bb):
     return out
 
 
-def decision_paths(body, O, to_bb, other_bb=None, limit=256):
+def decision_paths(body, O, to_bb, other_bb=None, limit=256, entry=None):
     """Paths through the (loop-free) decision region that ends in block `to_bb`: the region starts at the deepest block that
     dominates `to_bb` (and `other_bb`, the block of the opposite verdict, when given).  Returns
     (region entry, [[(switch block, scrutinee origin, ('in'|'not', values))...] per path]) or (entry, None) when the region
     has a cycle or more than `limit` paths."""
-    common = set(body.dom.get(to_bb, ()))
-    if other_bb is not None:
-        common &= set(body.dom.get(other_bb, ()))
-    common.discard(to_bb)
-    if not common:
-        return None, None
-    entry = max(common, key=lambda x: len(body.dom.get(x, ())))
+    if entry is None:
+        common = set(body.dom.get(to_bb, ()))
+        if other_bb is not None:
+            common &= set(body.dom.get(other_bb, ()))
+        common.discard(to_bb)
+        if not common:
+            return None, None
+        entry = max(common, key=lambda x: len(body.dom.get(x, ())))
     can_reach = set()
     stack = [to_bb]
     while stack:
@@ -959,7 +999,7 @@ def decision_paths(body, O, to_bb, other_bb=None, limit=256):
             paths.append(list(acc))
             return True
         if n in seen:
-            return False
+            return True          # simple paths only
         t = body.blocks[n]["term"]
         if t is None:
             return True
@@ -988,3 +1028,248 @@ def decision_paths(body, O, to_bb, other_bb=None, limit=256):
 
     ok = go(entry, [], frozenset())
     return entry, (paths if ok and len(paths) <= limit else None)
+
+
+# ---------------------------------------------------------------------------------------------------------------------
+# boolean verdicts: all the ways a block guarded by a boolean local can be reached with that local true
+def const_structure(P, body, ex):
+    """structure of a constant operand such as `&Some(LitOrRef::Lit(0))` (a promoted constant): nested ('agg', adt, variant,
+    fields) / ('const', value) tuples, or None"""
+    e = ex
+    while e[0] in ("ref", "deref", "mut"):
+        e = e[1]
+    if e[0] == "promoted":
+        pb = P.bodies.get("%s::%s::promoted[%s]" % (body.crate, e[1], e[2]))
+        if pb is None:
+            return None
+        Op = X.Origins(pb, P)
+        rets = pb.return_blocks()
+        if len(rets) != 1:
+            return None
+        e = Op.local(0, rets[0], len(pb.blocks[rets[0]]["stmts"]))
+        while e[0] in ("ref", "deref", "mut"):
+            e = e[1]
+    return e if e[0] in ("agg", "const") else None
+
+
+def verdict_paths(body, O, guarded_bb, opposite_bb, limit=256):
+    """`guarded_bb` is the block that runs when a decision comes out one way, `opposite_bb` a block of the other outcome.  When
+    the decision is first computed into a bool (`let any = matches!(..)`, `let any = a || b`), every definition of that bool
+    is followed back: a constant of the right polarity ends a path, a computed value (`start == K`) ends a path with that
+    computation as last condition.  Returns [[(block, origin, ('in'|'not', values))...]] or None."""
+    to_blocks = []       # (block, extra condition or None)
+    pol = None
+    for s_bb, ex, val in path_conditions(body, O, guarded_bb):
+        t = body.blocks[s_bb]["term"]
+        if not (t["op"].get("k") in ("copy", "move") and not t["op"]["pl"]["p"]):
+            continue
+        l = t["op"]["pl"]["l"]
+        ds = body.defs.get(l, ())
+        if len(ds) == 1 and ds[0][2] == "assign" and ds[0][3]["k"] == "use" and ds[0][3]["op"].get("k") in ("copy", "move") \
+                and not ds[0][3]["op"]["pl"]["p"]:
+            l = ds[0][3]["op"]["pl"]["l"]
+            ds = body.defs.get(l, ())
+        if len(ds) < 2 or (body.locals[l]["ty"] != "bool"):
+            continue
+        # is this the innermost bool that guards the block?
+        cand = []
+        ok = True
+        for d in ds:
+            if d[2] == "assign" and d[3]["k"] == "use" and d[3]["op"].get("k") == "const":
+                if bool(int(d[3]["op"].get("val", "0"))) == val:
+                    cand.append((d[0], None))
+            elif d[2] == "assign" and d[3]["k"] == "use" and d[3]["op"].get("k") in ("copy", "move") and not d[3]["op"]["pl"]["p"]:
+                src = O.operand(d[3]["op"], d[0], d[1])
+                cand.append((d[0], (d[0], src, ("not", frozenset({0})) if val else ("in", frozenset({0})))))
+            elif d[2] == "call":
+                src = O.call_ex(d[3], 0)
+                cand.append((d[3].target if d[3].target is not None else d[0], (d[0], src, ("not", frozenset({0})) if val else ("in", frozenset({0})))))
+            else:
+                ok = False
+        if ok and cand:
+            to_blocks = cand
+            pol = (s_bb, l)
+    if not to_blocks:
+        entry, paths = decision_paths(body, O, guarded_bb, opposite_bb, limit)
+        return paths
+    # region entry: deepest block dominating every definition of the bool
+    common = None
+    for d in body.defs.get(pol[1], ()):
+        ds = set(body.dom.get(d[0], ()))
+        common = ds if common is None else (common & ds)
+    common = {c for c in (common or ()) if c not in {d[0] for d in body.defs.get(pol[1], ())}}
+    if not common:
+        return None
+    entry = max(common, key=lambda x: len(body.dom.get(x, ())))
+    out = []
+    for blk, extra in to_blocks:
+        e2, paths = decision_paths(body, O, blk, None, limit, entry=entry)
+        if paths is None:
+            return None
+        for p in paths:
+            out.append(p + ([extra] if extra else []))
+    return out
+
+
+# ---------------------------------------------------------------------------------------------------------------------
+# reaching conditions as boolean functions over comparison facts
+def reach_dnf(body, O, target_bb, limit=4096):
+    """The comparison outcomes under which block `target_bb` is reached from the entry: a set of paths, each a frozenset of
+    (comparison key, 'below' | 'at-or-above').  Decisions that were stored in a bool first (`let unsigned = MIN >= 0; ..
+    match (unsigned, fits)`; `let any = matches!(..)`) are resolved along each path: a switch on such a local counts as the
+    comparison that defined it on that path, and a constant definition selects the one feasible edge.  Other switches
+    (discriminants, call results) do not contribute literals.  Returns None when there are more than `limit` paths."""
+    cmp_at = {}
+    for c in F.comparisons(body, O, include_compiler_checks=False):
+        if c.dest is not None:
+            cmp_at[(c.bb, c.dest)] = c
+    can_reach = set()
+    stack = [target_bb]
+    while stack:
+        n = stack.pop()
+        if n in can_reach:
+            continue
+        can_reach.add(n)
+        stack.extend(p for p in body.pred[n] if p in body.reachable)
+    if 0 not in can_reach:
+        return set()
+    paths = set()
+    count = [0]
+
+    def resolve(l, path, depth=0):
+        if depth > 6:
+            return None
+        pos = {b: i for i, b in enumerate(path)}
+        best = None
+        for d in body.defs.get(l, ()):
+            if d[0] in pos and d[2] in ("assign", "call"):
+                k = (pos[d[0]], d[1] if d[1] >= 0 else 10 ** 6)
+                if best is None or k > best[0]:
+                    best = (k, d)
+        if best is None:
+            return None
+        d = best[1]
+        if d[2] != "assign":
+            return None
+        rv = d[3]
+        if rv["k"] == "use":
+            op = rv["op"]
+            if op.get("k") == "const" and op.get("ty") == "bool":
+                return ("const", bool(int(op.get("val", "0"))))
+            if op.get("k") in ("copy", "move") and not op["pl"]["p"]:
+                return resolve(op["pl"]["l"], path[:pos[d[0]] + 1], depth + 1)
+            return None
+        if rv["k"] == "bin" and (d[0], l) in cmp_at:
+            return ("cmp", cmp_at[(d[0], l)], False)
+        if rv["k"] == "un" and rv["op"] == "Not" and rv["a"].get("k") in ("copy", "move") and not rv["a"]["pl"]["p"]:
+            r = resolve(rv["a"]["pl"]["l"], path[:pos[d[0]] + 1], depth + 1)
+            if r is None:
+                return None
+            if r[0] == "const":
+                return ("const", not r[1])
+            return ("cmp", r[1], not r[2])
+        return None
+
+    def go(n, path, lits):
+        if count[0] > limit:
+            return
+        path = path + [n]
+        if n == target_bb:
+            count[0] += 1
+            paths.add(frozenset(lits.items()))
+            return
+        t = body.blocks[n]["term"]
+        if t is None:
+            return
+        sw_local = None
+        if t["k"] == "switch" and t.get("opty") == "bool" and t["op"].get("k") in ("copy", "move") and len(t["vals"]) == 1:
+            pl = t["op"]["pl"]
+            if not pl["p"]:
+                sw_local = pl["l"]
+            elif len(pl["p"]) == 1 and pl["p"][0]["k"] == "field":
+                # a field of a tuple built on this path: `match (unsigned, fits) { (true, true) => .. }`
+                pos = {b: i for i, b in enumerate(path)}
+                best = None
+                for d in body.defs.get(pl["l"], ()):
+                    if d[0] in pos and d[2] == "assign" and d[3]["k"] == "agg" and d[3].get("ak") == "tuple":
+                        k = (pos[d[0]], d[1])
+                        if best is None or k > best[0]:
+                            best = (k, d)
+                if best is not None:
+                    ops = best[1][3]["ops"]
+                    i = pl["p"][0]["i"]
+                    if i < len(ops) and ops[i].get("k") in ("copy", "move") and not ops[i]["pl"]["p"]:
+                        sw_local = ops[i]["pl"]["l"]
+                    elif i < len(ops) and ops[i].get("k") == "const" and ops[i].get("ty") == "bool":
+                        sw_local = ("const", bool(int(ops[i].get("val", "0"))))
+        if sw_local is not None:
+            r = sw_local if isinstance(sw_local, tuple) else resolve(sw_local, path)
+            zero_t, other_t = t["targets"][0], t["otherwise"]
+            if int(t["vals"][0]) != 0:
+                zero_t, other_t = other_t, zero_t
+            for val, tg in ((False, zero_t), (True, other_t)):
+                if tg not in can_reach or tg in path:
+                    continue
+                if r is not None and r[0] == "const":
+                    if r[1] != val:
+                        continue
+                    go(tg, path, lits)
+                elif r is not None and r[0] == "cmp":
+                    c = r[1]
+                    v = (not val) if r[2] else val
+                    below = c.nop in ("Lt", "Le")
+                    truth = "below" if (v == below) else "at-or-above"
+                    k = cmp_key_positional(c)
+                    if lits.get(k, truth) != truth:
+                        continue        # contradicts an earlier outcome of the same comparison on this path
+                    l2 = dict(lits)
+                    l2[k] = truth
+                    go(tg, path, l2)
+                else:
+                    go(tg, path, lits)
+            return
+        for tg in sorted(set(body.succ[n])):
+            if tg in can_reach and tg not in path:
+                go(tg, path, lits)
+
+    go(0, [], {})
+    if count[0] > limit:
+        return None
+    return paths
+
+
+def dnf_equal(a, b):
+    """are two DNFs (sets of frozensets of (key, 'below'|'at-or-above')) the same boolean function?  Thresholds on the same
+    operand are ordered: being at or above a higher boundary implies being at or above a lower one.
+    Returns (equal, a distinguishing assignment or None)."""
+    keys = sorted({k for p in a | b for k, _ in p}, key=str)
+    if len(keys) > 12:
+        return a == b, None
+    groups = {}
+    for k in keys:
+        parts = k.split("|")
+        if len(parts) >= 4 and parts[2] == "b":
+            try:
+                groups.setdefault((parts[0], parts[1]), []).append((int(parts[3]), k))
+            except ValueError:
+                pass
+
+    def feasible(asg):
+        for g in groups.values():
+            g = sorted(g)
+            for (k1, n1), (k2, n2) in zip(g, g[1:]):
+                if asg[n2] == "at-or-above" and asg[n1] == "below":
+                    return False
+        return True
+
+    def holds(dnf, asg):
+        return any(all(asg.get(k) == v for k, v in p) for p in dnf)
+
+    import itertools
+    for combo in itertools.product(("below", "at-or-above"), repeat=len(keys)):
+        asg = dict(zip(keys, combo))
+        if not feasible(asg):
+            continue
+        if holds(a, asg) != holds(b, asg):
+            return False, asg
+    return True, None
